@@ -45,6 +45,13 @@ def o_footprint_upwind(case):
     X, Y = np.asarray(r["grid"][0]), np.asarray(r["grid"][1])
     tx, ty = cfg.towers[0].x, cfg.towers[0].y
     w = np.clip(f, 0, None)
+    # the returned grid x = i*dx, i < nx, reaches one cell further to the west / south of a tower at the domain centre than
+    # to the east / north: the centre of mass is taken over the largest sub-window that is CENTRED ON THE TOWER (the
+    # property's "domain centred on the tower"); an unmatched edge column / row would pull the centroid across the wind
+    # axis by its whole lever arm (under-resolved footprints ring out to the edges)
+    rx = min(float(tx - X.min()), float(X.max() - tx))
+    ry = min(float(ty - Y.min()), float(Y.max() - ty))
+    w = w * ((np.abs(X - tx) <= rx * (1 + 1e-9)) & (np.abs(Y - ty) <= ry * (1 + 1e-9)))
     tot = w.sum()
     if not tot > 0:
         return fail("C08/empty", "footprint has no positive mass", None, "> 0", float(tot), 0)
